@@ -7,6 +7,10 @@ mixture of append, reserve-write-commit, fetch, consume, consume-all, shrink,
 copy, move, swap and reset; readable size = written − consumed; a copy is
 independent of its source; a moved-from or reset buffer is empty and reusable;
 no operation reads or writes outside the buffer's own storage."
+
+All sizes are `size_t` values (`Op.wf`), all index arithmetic of the model wraps like the code's,
+and every operation takes the allocator's answers as an oracle (`Alloc`); the theorems hold for
+every oracle.  An operation that reports failure is a no-op on the representation.
 -/
 import TboxModel.C07.BufLemmas
 namespace Tbox.C07
@@ -16,6 +20,15 @@ open Buf
 def abs (s : Store) : Spec := s.map Buf.readable
 
 def StoreInv (s : Store) : Prop := ∀ b ∈ s, b.Inv
+
+theorem kInit_lt : kInitialSize < W := by unfold kInitialSize W; omega
+
+/-! projections of `Out.ofRes` as rewrite rules (stated for a variable result, so that no proof
+step has to evaluate a buffer operation) -/
+theorem ofRes_accesses (x : Res) : (Out.ofRes x).accesses = x.acc := rfl
+theorem ofRes_fetched (x : Res) : (Out.ofRes x).fetched = [] := rfl
+theorem ofRes_failed (x : Res) : (Out.ofRes x).failed = (x.st != .ok) := rfl
+theorem shrink_eq (al : Alloc) (b : Buf) : Buf.shrink al b = Buf.cloneInto al b b := rfl
 
 /-! ### store plumbing -/
 
@@ -44,6 +57,10 @@ theorem set_getD_self {α} (l : List α) (i : Nat) (d : α) : l.set i (l.getD i 
       | zero => simp
       | succ n => simpa using ih n
 
+theorem put_get_self (s : Store) (i : Nat) : s.put i (s.get i) = s := set_getD_self _ _ _
+
+theorem spec_put_get_self (q : Spec) (i : Nat) : Spec.put q i (Spec.get q i) = q := set_getD_self _ _ _
+
 theorem put_inv (s : Store) (i : Nat) (b : Buf) (h : StoreInv s) (hb : b.Inv) : StoreInv (s.put i b) := by
   intro x hx
   unfold Store.put at hx
@@ -51,41 +68,80 @@ theorem put_inv (s : Store) (i : Nat) (b : Buf) (h : StoreInv s) (hb : b.Inv) : 
   · exact h x hx
   · exact hx ▸ hb
 
+/-- a buffer-level result that is either a success with an invariant-keeping buffer or a no-op -/
+theorem put_res_inv (s : Store) (i : Nat) (x : Res) (h : StoreInv s)
+    (hok : x.st = .ok → x.buf.Inv) (hfail : x.st ≠ .ok → x.buf = s.get i) : StoreInv (s.put i x.buf) := by
+  by_cases hst : x.st = .ok
+  · exact put_inv _ _ _ h (hok hst)
+  · rw [hfail hst]; exact put_inv _ _ _ h (get_inv s i h)
+
+theorem len_readable (b : Buf) (h : b.Inv) : b.readable.length = b.readableSize := by
+  rw [readable_length b h, readableSize_eq b h]
+
 /-! ### C07_inv / C07_refines_fifo / C07_in_bounds — one step -/
 
-/-- One step: the invariant `r ≤ w ≤ size` is preserved by EVERY operation (also the
-over-commit that the reserve/commit contract forbids), and every memory access lies inside
-the storage it touches. -/
-theorem C07_step_safe (s : Store) (op : Op) (h : StoreInv s)
-    (hc : op.rwcOk = true) :
-    StoreInv (step s op).1 ∧ ∀ a ∈ (step s op).2.accesses, a.ok := by
+/-- One step, any allocator: the invariant `r ≤ w ≤ size < 2^64` is preserved by EVERY operation
+(also the over-commit that the reserve/commit contract forbids, also a failing one), and every
+memory access lies inside the storage it touches. -/
+theorem C07_step_safe (al : Alloc) (s : Store) (op : Op) (h : StoreInv s)
+    (hw : op.wf = true) (hc : op.rwcOk = true) :
+    StoreInv (step al s op).1 ∧ ∀ a ∈ (step al s op).2.accesses, a.ok := by
   cases op with
-  | construct i cap => exact ⟨put_inv _ _ _ h (mk'_inv cap), by simp [step]⟩
+  | construct i cap =>
+      have := construct_spec al (s.get i) cap (by simpa [Op.wf] using hw)
+      exact ⟨put_res_inv _ _ _ h (fun e => (this.1 e).1) this.2.1, by simp [step, Out.ofRes, this.2.2]⟩
+  | defaultCtor i =>
+      have := construct_spec al (s.get i) kInitialSize kInit_lt
+      exact ⟨put_res_inv _ _ _ h (fun e => (this.1 e).1) this.2.1, by simp [step, Out.ofRes, this.2.2]⟩
   | append i d =>
-      have := append_spec (s.get i) d (get_inv s i h)
-      exact ⟨put_inv _ _ _ h this.1, this.2.2⟩
+      have := append_spec al (s.get i) d (get_inv s i h)
+      exact ⟨put_res_inv _ _ _ h (fun e => (this.1 e).1) (fun e => (this.2.1 e).1), this.2.2⟩
+  | appendSelf i off k =>
+      have hI := get_inv s i h
+      simp only [step]
+      split
+      · rename_i hcond
+        have he := ensure_spec al (s.get i) k hI
+        split
+        · rename_i hst
+          have hk := he.1 hst
+          have hlen : ((s.get i).ensure al k).buf.w - ((s.get i).ensure al k).buf.r = (s.get i).w - (s.get i).r := by
+            rw [← readable_length _ hk.1, hk.2.1, readable_length _ hI]
+          have ha := appendSelfRaw_reserved al ((s.get i).ensure al k).buf off k hk.1 hk.2.2
+            (by rw [hlen, ← readableSize_eq _ hI]; exact hcond)
+          refine ⟨put_inv _ _ _ h ha.2.2.1, ?_⟩
+          intro a hmem
+          simp only [List.mem_append] at hmem
+          rcases hmem with hmem | hmem
+          · exact he.2.2 a hmem
+          · exact ha.2.2.2.2.2.2 a hmem
+        · exact ⟨h, by simpa [Out.ofRes] using he.2.2⟩
+      · exact ⟨h, by simp⟩
   | reserve i n =>
-      have := ensure_spec (s.get i) n (get_inv s i h)
-      exact ⟨put_inv _ _ _ h this.1, ensure_accesses_ok _ _ (get_inv s i h)⟩
+      have := ensure_spec al (s.get i) n (get_inv s i h)
+      exact ⟨put_res_inv _ _ _ h (fun e => (this.1 e).1) this.2.1, by simpa [step, Out.ofRes] using this.2.2⟩
   | rwc i n d =>
-      have := rwc_spec (s.get i) n d (get_inv s i h) (by simpa [Op.rwcOk] using hc)
-      exact ⟨put_inv _ _ _ h this.1, this.2.2⟩
+      have := rwc_spec al (s.get i) n d (get_inv s i h) (by simpa [Op.rwcOk] using hc)
+      exact ⟨put_res_inv _ _ _ h (fun e => (this.1 e).1) this.2.1, this.2.2⟩
   | over i n =>
-      have := userWrite_inv (s.get i) (List.replicate (s.get i).writable 0) (get_inv s i h) (by simp)
+      have hI := get_inv s i h
+      have := userWrite_inv (s.get i) (List.replicate (s.get i).writable 0) hI (by simp)
       exact ⟨put_inv _ _ _ h (hasWritten_inv _ _ this.1), this.2⟩
   | fetch i n =>
       have := fetch_spec (s.get i) n (get_inv s i h)
       exact ⟨put_inv _ _ _ h this.1, this.2.2.2⟩
   | consume i n => exact ⟨put_inv _ _ _ h (hasRead_spec _ n (get_inv s i h)).1, by simp [step]⟩
-  | consumeAll i => exact ⟨put_inv _ _ _ h (hasReadAll_spec _).1, by simp [step]⟩
+  | consumeAll i => exact ⟨put_inv _ _ _ h (hasReadAll_spec _ (get_inv s i h)).1, by simp [step]⟩
   | shrink i =>
-      have := cloneOf_spec (s.get i) (get_inv s i h)
-      exact ⟨put_inv _ _ _ h this.1, this.2.2⟩
+      have := cloneInto_spec al (s.get i) (s.get i) (get_inv s i h)
+      refine ⟨put_res_inv _ _ _ h (fun e => (this.1 e).1) this.2.1, ?_⟩
+      simp only [step, ofRes_accesses, shrink_eq]; exact this.2.2
   | copyAssign dst src =>
       simp only [step]; split
       · exact ⟨h, by simp⟩
-      · have := cloneOf_spec (s.get src) (get_inv s src h)
-        exact ⟨put_inv _ _ _ h this.1, this.2.2⟩
+      · have := cloneInto_spec al (s.get dst) (s.get src) (get_inv s src h)
+        refine ⟨put_res_inv _ _ _ h (fun e => (this.1 e).1) this.2.1, ?_⟩
+        simp only [ofRes_accesses]; exact this.2.2
   | moveAssign dst src =>
       simp only [step]; split
       · exact ⟨h, by simp⟩
@@ -93,8 +149,9 @@ theorem C07_step_safe (s : Store) (op : Op) (h : StoreInv s)
   | copyCtor dst src =>
       simp only [step]; split
       · exact ⟨h, by simp⟩
-      · have := cloneOf_spec (s.get src) (get_inv s src h)
-        exact ⟨put_inv _ _ _ h this.1, this.2.2⟩
+      · have := cloneInto_spec al (s.get dst) (s.get src) (get_inv s src h)
+        refine ⟨put_res_inv _ _ _ h (fun e => (this.1 e).1) this.2.1, ?_⟩
+        simp only [ofRes_accesses]; exact this.2.2
   | moveCtor dst src =>
       simp only [step]; split
       · exact ⟨h, by simp⟩
@@ -103,66 +160,194 @@ theorem C07_step_safe (s : Store) (op : Op) (h : StoreInv s)
       exact ⟨put_inv _ _ _ (put_inv _ _ _ h (get_inv s j h)) (get_inv s i h), by simp [step]⟩
   | reset i => exact ⟨put_inv _ _ _ h empty_inv, by simp [step]⟩
 
-/-- One step refines the FIFO specification: the abstraction commutes with the operation and
-the bytes handed to the reader are the FIFO's. -/
-theorem C07_step_refines (s : Store) (op : Op) (h : StoreInv s) (hc : op.inContract = true) :
-    abs (step s op).1 = (specStep (abs s) op).1 ∧ (step s op).2.fetched = (specStep (abs s) op).2 := by
+/-- **C07_fail_noop.** An operation that reports failure (allocation failed, or the requested size
+is not representable) leaves every buffer exactly as it was — storage, indices and content. -/
+theorem C07_fail_noop (al : Alloc) (s : Store) (op : Op) (h : StoreInv s)
+    (hf : (step al s op).2.failed = true) : (step al s op).1 = s := by
+  have key : ∀ (i : Nat) (x : Res), (x.st ≠ .ok → x.buf = s.get i) → (Out.ofRes x).failed = true →
+      s.put i x.buf = s := by
+    intro i x hx hfl
+    have : x.st ≠ .ok := by simpa [Out.failed, Out.ofRes] using hfl
+    rw [hx this]; exact put_get_self s i
   cases op with
-  | construct i cap => simp [step, specStep, abs_put, mk'_readable]
-  | append i d =>
-      have := append_spec (s.get i) d (get_inv s i h)
-      simp [step, specStep, abs_put, abs_get, this.2.1]
+  | construct i cap =>
+      by_cases hc : cap < W
+      · exact key i _ (construct_spec al (s.get i) cap hc).2.1 hf
+      · -- a capacity that is no size_t: the model still answers like the code would for cap mod 2^64; not a failure of a well-formed op
+        simp only [step] at hf ⊢
+        have hx : (Buf.construct al (s.get i) cap).st ≠ .ok → (Buf.construct al (s.get i) cap).buf = s.get i := by
+          unfold Buf.construct; split
+          · intro hne; exact (hne rfl).elim
+          · split
+            · intro hne; exact (hne rfl).elim
+            · intro _; rfl
+        exact key i _ hx hf
+  | defaultCtor i => exact key i _ (construct_spec al (s.get i) kInitialSize kInit_lt).2.1 hf
+  | append i d => exact key i _ (fun e => ((append_spec al (s.get i) d (get_inv s i h)).2.1 e).1) hf
+  | appendSelf i off k =>
+      simp only [step] at hf ⊢
+      split
+      · split
+        · rename_i hcond hst
+          have hI := get_inv s i h
+          have he := ensure_spec al (s.get i) k hI
+          have hk := he.1 hst
+          have hlen : ((s.get i).ensure al k).buf.w - ((s.get i).ensure al k).buf.r = (s.get i).w - (s.get i).r := by
+            rw [← readable_length _ hk.1, hk.2.1, readable_length _ hI]
+          have ha := appendSelfRaw_reserved al ((s.get i).ensure al k).buf off k hk.1 hk.2.2
+            (by rw [hlen, ← readableSize_eq _ hI]; exact hcond)
+          simp [hcond, hst, Out.failed, Out.ofRes, ha.2.1] at hf
+        · rfl
+      · rfl
   | reserve i n =>
-      have := ensure_spec (s.get i) n (get_inv s i h)
-      simp only [step, specStep, abs_put, this.2.1, and_true]
-      rw [← abs_get]; unfold Spec.put Spec.get
-      exact set_getD_self _ _ _
+      simp only [step] at hf ⊢
+      have := (ensure_spec al (s.get i) n (get_inv s i h)).2.1
+      have hne : ((s.get i).ensure al n).st ≠ .ok := by simpa [Out.failed, Out.ofRes] using hf
+      rw [this hne]; exact put_get_self s i
   | rwc i n d =>
-      have hn : d.length ≤ n := by simpa [Op.inContract] using hc
-      have := rwc_spec (s.get i) n d (get_inv s i h) hn
-      simp [step, specStep, abs_put, abs_get, this.2.1]
-  | over i n => simp [Op.inContract] at hc
-  | fetch i n =>
-      have := fetch_spec (s.get i) n (get_inv s i h)
-      simp [step, specStep, abs_put, abs_get, this.2.1, this.2.2.1]
-  | consume i n =>
-      simp [step, specStep, abs_put, abs_get, (hasRead_spec _ n (get_inv s i h)).2]
-  | consumeAll i => simp [step, specStep, abs_put, (hasReadAll_spec _).2]
-  | shrink i =>
-      have := cloneOf_spec (s.get i) (get_inv s i h)
-      simp only [step, specStep, abs_put, Buf.shrink, this.2.1, and_true]
-      rw [← abs_get]; unfold Spec.put Spec.get
-      exact set_getD_self _ _ _
+      simp only [step] at hf ⊢
+      have hne : ((s.get i).reserveWriteCommit al n d).st ≠ .ok := by simpa [Out.failed, Out.ofRes] using hf
+      have : ((s.get i).reserveWriteCommit al n d).buf = s.get i := by
+        unfold Buf.reserveWriteCommit at hne ⊢
+        by_cases hst : ((s.get i).ensure al n).st = .ok
+        · simp [hst] at hne
+        · simp [hst]
+      rw [this]; exact put_get_self s i
+  | over i n => simp [step, Out.failed] at hf
+  | fetch i n => simp [step, Out.failed] at hf
+  | consume i n => simp [step, Out.failed] at hf
+  | consumeAll i => simp [step, Out.failed] at hf
+  | shrink i => exact key i _ (cloneInto_spec al (s.get i) (s.get i) (get_inv s i h)).2.1 hf
   | copyAssign dst src =>
-      have := cloneOf_spec (s.get src) (get_inv s src h)
-      simp only [step, specStep]; split <;> simp [abs_put, abs_get, this.2.1]
-  | moveAssign dst src =>
-      simp only [step, specStep]; split <;> simp [abs_put, abs_get, empty_readable]
+      simp only [step] at hf ⊢; split
+      · rfl
+      · rename_i hne; simp only [hne, ↓reduceIte] at hf
+        exact key dst _ (cloneInto_spec al (s.get dst) (s.get src) (get_inv s src h)).2.1 hf
+  | moveAssign dst src => simp only [step] at hf; split at hf <;> simp [Out.failed] at hf
   | copyCtor dst src =>
-      have := cloneOf_spec (s.get src) (get_inv s src h)
-      simp only [step, specStep]; split <;> simp [abs_put, abs_get, this.2.1]
-  | moveCtor dst src =>
-      simp only [step, specStep]; split <;> simp [abs_put, abs_get, empty_readable]
-  | swap i j => simp [step, specStep, abs_put, abs_get]
-  | reset i => simp [step, specStep, abs_put, empty_readable]
+      simp only [step] at hf ⊢; split
+      · rfl
+      · rename_i hne; simp only [hne, ↓reduceIte] at hf
+        exact key dst _ (cloneInto_spec al (s.get dst) (s.get src) (get_inv s src h)).2.1 hf
+  | moveCtor dst src => simp only [step] at hf; split at hf <;> simp [Out.failed] at hf
+  | swap i j => simp [step, Out.failed] at hf
+  | reset i => simp [step, Out.failed] at hf
 
-/-! ### the statements for every operation sequence -/
+/-- One step refines the FIFO specification for every allocator: a successful operation commutes
+with the FIFO operation, a failing one with the identity, and the bytes handed to the reader are
+the FIFO's. -/
+theorem C07_step_refines (al : Alloc) (s : Store) (op : Op) (h : StoreInv s) (hc : op.inContract = true) :
+    abs (step al s op).1 = (specStepF (step al s op).2.failed (abs s) op).1 ∧
+    (step al s op).2.fetched = (specStepF (step al s op).2.failed (abs s) op).2 := by
+  by_cases hf : (step al s op).2.failed = true
+  · have hn := C07_fail_noop al s op h hf
+    have hfe : (step al s op).2.fetched = [] := by
+      cases op <;> simp [step, Out.failed, Out.ofRes] at hf ⊢ <;> (try split) <;> (try split) <;> simp_all [Out.ofRes]
+    simp [specStepF, hf, hn, hfe]
+  · have hf' : (step al s op).2.failed = false := by simpa using hf
+    rw [hf']
+    simp only [specStepF, Bool.false_eq_true, ↓reduceIte]
+    -- success (or an operation that cannot fail)
+    have okOf : ∀ (x : Res), (Out.ofRes x).failed = false → x.st = .ok := by
+      intro x hx; simpa [Out.failed, Out.ofRes] using hx
+    cases op with
+    | construct i cap =>
+        have hst := okOf _ hf'
+        have hb : (Buf.construct al (s.get i) cap).buf.readable = [] := by
+          unfold Buf.construct at hst ⊢
+          split
+          · exact empty_readable
+          · split
+            · exact mk'_readable cap
+            · rename_i h1 h2; simp [h1, h2] at hst
+        simp [step, specStep, abs_put, hb, Out.ofRes]
+    | defaultCtor i =>
+        have hst := okOf _ hf'
+        have := (construct_spec al (s.get i) kInitialSize kInit_lt).1 hst
+        simp [step, specStep, abs_put, this.2, Out.ofRes]
+    | append i d =>
+        have hst := okOf _ hf'
+        have := (append_spec al (s.get i) d (get_inv s i h)).1 hst
+        simp [step, specStep, abs_put, abs_get, this.2.1, Out.ofRes]
+    | appendSelf i off k =>
+        have hI := get_inv s i h
+        have hl := len_readable (s.get i) hI
+        simp only [step, specStep, abs_get, hl]
+        split
+        · rename_i hcond
+          split
+          · rename_i hst
+            have he := ensure_spec al (s.get i) k hI
+            have hk := he.1 hst
+            have hlen : ((s.get i).ensure al k).buf.w - ((s.get i).ensure al k).buf.r = (s.get i).w - (s.get i).r := by
+              rw [← readable_length _ hk.1, hk.2.1, readable_length _ hI]
+            have ha := appendSelfRaw_reserved al ((s.get i).ensure al k).buf off k hk.1 hk.2.2
+              (by rw [hlen, ← readableSize_eq _ hI]; exact hcond)
+            simp [abs_put, ha.2.2.2.1, hk.2.1, Out.ofRes]
+          · rename_i hst
+            simp [step, hcond, hst, Out.failed, Out.ofRes] at hf'
+        · simp
+    | reserve i n =>
+        have hst : ((s.get i).ensure al n).st = .ok := by simpa [step, Out.failed, Out.ofRes] using hf'
+        have := (ensure_spec al (s.get i) n (get_inv s i h)).1 hst
+        simp only [step, specStep, abs_put, this.2.1, Out.ofRes, and_true]
+        rw [← abs_get]; exact spec_put_get_self _ _
+    | rwc i n d =>
+        have hn : d.length ≤ n := by simpa [Op.inContract] using hc
+        have hst := okOf _ hf'
+        have := (rwc_spec al (s.get i) n d (get_inv s i h) hn).1 hst
+        simp [step, specStep, abs_put, abs_get, this.2, Out.ofRes]
+    | over i n => simp [Op.inContract] at hc
+    | fetch i n =>
+        have := fetch_spec (s.get i) n (get_inv s i h)
+        simp [step, specStep, abs_put, abs_get, this.2.1, this.2.2.1]
+    | consume i n =>
+        simp [step, specStep, abs_put, abs_get, (hasRead_spec _ n (get_inv s i h)).2.1]
+    | consumeAll i => simp [step, specStep, abs_put, (hasReadAll_spec _ (get_inv s i h)).2]
+    | shrink i =>
+        have hst := okOf _ hf'
+        have := (cloneInto_spec al (s.get i) (s.get i) (get_inv s i h)).1 hst
+        simp only [step, specStep, abs_put, Buf.shrink, this.2, Out.ofRes, and_true]
+        rw [← abs_get]; exact spec_put_get_self _ _
+    | copyAssign dst src =>
+        simp only [step, specStep] at hf' ⊢; split
+        · simp
+        · rename_i hne; simp only [hne, ↓reduceIte] at hf'
+          have := (cloneInto_spec al (s.get dst) (s.get src) (get_inv s src h)).1 (okOf _ hf')
+          simp [abs_put, abs_get, this.2, Out.ofRes]
+    | moveAssign dst src =>
+        simp only [step, specStep]; split <;> simp [abs_put, abs_get, empty_readable]
+    | copyCtor dst src =>
+        simp only [step, specStep] at hf' ⊢; split
+        · simp
+        · rename_i hne; simp only [hne, ↓reduceIte] at hf'
+          have := (cloneInto_spec al (s.get dst) (s.get src) (get_inv s src h)).1 (okOf _ hf')
+          simp [abs_put, abs_get, this.2, Out.ofRes]
+    | moveCtor dst src =>
+        simp only [step, specStep]; split <;> simp [abs_put, abs_get, empty_readable]
+    | swap i j => simp [step, specStep, abs_put, abs_get]
+    | reset i => simp [step, specStep, abs_put, empty_readable]
+
+/-! ### the statements for every operation sequence and every allocator behaviour -/
 
 theorem init_inv : StoreInv init := by
-  intro b hb; simp [init] at hb; rw [hb.2]; exact mk'_inv _
+  intro b hb; simp [init] at hb; rw [hb.2]; exact mk'_inv _ kInit_lt
 
-/-- **C07_inv / C07_in_bounds.** For every operation sequence that keeps the
-reserve/commit contract (`|d| ≤ n` in reserve-write-commit; over-commit allowed!),
-from any consistent store: all buffers stay consistent and every `memcpy`/`memmove`
-performed lies inside the storage it touches (zero-length copies are allowed anywhere). -/
-theorem C07_in_bounds (s : Store) (ops : List Op) (h : StoreInv s)
-    (hc : ∀ op ∈ ops, op.rwcOk = true) :
+/-- **C07_inv / C07_in_bounds.** For every sequence of well-formed operations that keeps the
+reserve/commit contract (`|d| ≤ n` in reserve-write-commit; over-commit allowed!), every answer of
+the allocator to every request, from any consistent store: all buffers stay consistent and every
+`memcpy`/`memmove` performed lies inside the storage it touches (zero-length copies are allowed
+anywhere). -/
+theorem C07_in_bounds (s : Store) (ops : List (Alloc × Op)) (h : StoreInv s)
+    (hc : ∀ aop ∈ ops, aop.2.wf = true ∧ aop.2.rwcOk = true) :
     StoreInv (run s ops).1 ∧ ∀ o ∈ (run s ops).2, ∀ a ∈ o.accesses, a.ok := by
   induction ops generalizing s with
   | nil => exact ⟨h, by simp [run]⟩
-  | cons op ops ih =>
-      have h1 := C07_step_safe s op h (hc op (List.mem_cons_self))
-      have h2 := ih (step s op).1 h1.1 (fun o ho => hc o (List.mem_cons_of_mem _ ho))
+  | cons aop ops ih =>
+      obtain ⟨al, op⟩ := aop
+      have hop := hc (al, op) List.mem_cons_self
+      have h1 := C07_step_safe al s op h hop.1 hop.2
+      have h2 := ih (step al s op).1 h1.1 (fun o ho => hc o (List.mem_cons_of_mem _ ho))
       refine ⟨h2.1, ?_⟩
       intro o ho
       simp only [run, List.mem_cons] at ho
@@ -170,62 +355,229 @@ theorem C07_in_bounds (s : Store) (ops : List Op) (h : StoreInv s)
       · exact h1.2
       · exact h2.2 o ho
 
-/-- **C07_refines_fifo.** For every in-contract operation sequence the buffer store behaves
-exactly like a store of FIFO byte queues: the bytes obtained by every `fetch` and the final
+/-- **C07_refines_fifo.** For every in-contract operation sequence and every behaviour of the
+allocator the buffer store behaves exactly like a store of FIFO byte queues in which the
+operations that reported failure are skipped: the bytes obtained by every `fetch` and the final
 contents are those of the FIFO specification — written bytes, in order, once each. -/
-theorem C07_refines_fifo (s : Store) (ops : List Op) (h : StoreInv s)
-    (hc : ∀ op ∈ ops, op.inContract = true) :
-    abs (run s ops).1 = (specRun (abs s) ops).1 ∧
-    (run s ops).2.map (·.fetched) = (specRun (abs s) ops).2 := by
+theorem C07_refines_fifo (s : Store) (ops : List (Alloc × Op)) (h : StoreInv s)
+    (hc : ∀ aop ∈ ops, aop.2.wf = true ∧ aop.2.inContract = true) :
+    abs (run s ops).1 = (specRun (abs s) (failures s ops)).1 ∧
+    (run s ops).2.map (·.fetched) = (specRun (abs s) (failures s ops)).2 := by
   induction ops generalizing s with
-  | nil => simp [run, specRun]
-  | cons op ops ih =>
-      have hop := hc op List.mem_cons_self
-      have h1 := C07_step_refines s op h hop
-      have hs : StoreInv (step s op).1 := by
-        refine (C07_step_safe s op h ?_).1
+  | nil => simp [run, specRun, failures]
+  | cons aop ops ih =>
+      obtain ⟨al, op⟩ := aop
+      have hop := hc (al, op) List.mem_cons_self
+      have h1 := C07_step_refines al s op h hop.2
+      have hs : StoreInv (step al s op).1 := by
+        refine (C07_step_safe al s op h hop.1 ?_).1
+        have := hop.2
         cases op <;> simp_all [Op.inContract, Op.rwcOk]
-      have h2 := ih (step s op).1 hs (fun o ho => hc o (List.mem_cons_of_mem _ ho))
-      simp only [run, specRun, List.map_cons]
+      have h2 := ih (step al s op).1 hs (fun o ho => hc o (List.mem_cons_of_mem _ ho))
+      simp only [run, specRun, failures, List.map_cons]
       rw [← h1.1, ← h1.2]
       exact ⟨h2.1, by rw [h2.2]⟩
 
-/-- **C07_size.** The reported readable size is the length of the FIFO content. -/
-theorem C07_size (b : Buf) (h : b.Inv) : b.readableSize = b.readable.length := by
-  rw [readable_length b h]; rfl
+/-- **C07_total_alloc.** With an allocator that never fails, the only operations that can report
+failure are reservations whose size is not representable (`write_index_ + n > SIZE_MAX/2`). -/
+theorem C07_no_badAlloc (al : Alloc) (b : Buf) (n : Nat) (h : b.Inv) (hal : ∀ sz, al sz = true) :
+    (b.ensure al n).st = .ok ∨ ((b.ensure al n).st = .refused ∧ b.w + n > maxHalf) := by
+  rw [ensure_status al b n h]
+  by_cases hg : b.needsGrowth n
+  · by_cases hm : b.w + n > maxHalf
+    · right; simp [hg, hm]
+    · left; simp [hg, hm, hal]
+  · left; simp [hg]
 
-/-- **C07_reserve.** After reserving `n` bytes at least `n` bytes are writable and the
-content is unchanged. -/
-theorem C07_reserve (b : Buf) (n : Nat) (h : b.Inv) :
-    (b.ensure n).1.writable ≥ n ∧ (b.ensure n).1.readable = b.readable :=
-  ⟨(ensure_spec b n h).2.2, (ensure_spec b n h).2.1⟩
+/-- **C07_size.** The reported readable size (`size_t` subtraction) is the length of the FIFO content. -/
+theorem C07_size (b : Buf) (h : b.Inv) : b.readableSize = b.readable.length :=
+  (len_readable b h).symm
+
+/-- **C07_reserve.** (code with patch C07-01) For every `size_t` request and every allocator:
+a reservation that reports success leaves at least `n` bytes physically inside the storage behind
+`write_index_` (so `writableSize() ≥ n` is not an artefact of a wrapped subtraction) and the
+content unchanged; one that reports failure changes nothing; and it reports failure exactly when
+the request needs a reallocation and either `write_index_ + n` exceeds `SIZE_MAX/2` (`refused`)
+or the allocator refuses `2·(write_index_ + n)` bytes (`badAlloc`). -/
+theorem C07_reserve (al : Alloc) (b : Buf) (n : Nat) (h : b.Inv) :
+    ((b.ensure al n).st = .ok →
+        (b.ensure al n).buf.w + n ≤ (b.ensure al n).buf.mem.length ∧ (b.ensure al n).buf.writable ≥ n ∧
+        (b.ensure al n).buf.readable = b.readable ∧ (b.ensure al n).buf.Inv) ∧
+    ((b.ensure al n).st ≠ .ok → (b.ensure al n).buf = b) ∧
+    (b.ensure al n).st =
+      (if ¬ b.needsGrowth n then .ok
+       else if b.w + n > maxHalf then .refused
+       else if al ((b.w + n) * 2) then .ok else .badAlloc) := by
+  have e := ensure_spec al b n h
+  refine ⟨fun hst => ?_, e.2.1, ensure_status al b n h⟩
+  have k := e.1 hst
+  refine ⟨k.2.2, ?_, k.2.1, k.1⟩
+  rw [writable_eq _ k.1]; omega
+
+/-- **C07_reserve_asfound_partial.** The code as found (no overflow check) agrees with the
+repaired code — and therefore keeps the reservation contract — whenever `2·(write_index_ + n)`
+is representable. -/
+theorem C07_reserve_asfound_partial (al : Alloc) (b : Buf) (n : Nat)
+    (hs : (b.w + n) * 2 < W) : b.ensureAsFound al n = b.ensure al n := by
+  unfold Buf.ensureAsFound Buf.ensure
+  have : ¬ (b.w > maxHalf ∨ n > maxHalf - b.w) := by unfold W maxHalf at *; omega
+  simp [this]
+
+/-- **C07_reserve_asfound_weakest.** That hypothesis is the weakest: at EVERY point outside it
+where the reallocation branch is taken and the allocator grants the (wrapped) size, the code as
+found reports success with a new block that cannot hold `write_index_ + n` bytes. -/
+theorem C07_reserve_asfound_weakest (al : Alloc) (b : Buf) (n : Nat) (h : b.Inv) (hn : n < W)
+    (hg : b.needsGrowth n) (hov : ¬ (b.w + n) * 2 < W) (hal : al (growSize b.w n) = true) :
+    (b.ensureAsFound al n).st = .ok ∧ (b.ensureAsFound al n).news = 1 ∧ growSize b.w n < b.w + n := by
+  have hw := writable_eq b h
+  obtain ⟨hrw, hws, hW⟩ := h
+  obtain ⟨h0, h1, h2⟩ := hg
+  have ha : uadd (b.mem.length - b.w) b.r = b.mem.length - b.w + b.r := uadd_eq _ _ (by omega)
+  have e1 : ¬ (b.mem.length - b.w ≥ n) := by omega
+  have e2 : ¬ (b.mem.length - b.w + b.r ≥ n) := by omega
+  refine ⟨?_, ?_, ?_⟩
+  · unfold Buf.ensureAsFound; simp only [hw, ha, h0, e1, e2, ↓reduceIte]; unfold Buf.regrow; simp [hal]
+  · unfold Buf.ensureAsFound; simp only [hw, ha, h0, e1, e2, ↓reduceIte]; unfold Buf.regrow; simp [hal]
+  · unfold growSize ushl1 uadd
+    (repeat' split) <;> (unfold W at *; omega)
+
+/-- **C07_reserve_asfound_counterexample.** As found: `Buffer b(0); b.ensureWritableSize(2^63)`
+allocates `(0 + 2^63) << 1 = 0` bytes and returns `true`. -/
+theorem C07_reserve_asfound_counterexample :
+    let b : Buf := { mem := [], r := 0, w := 0 }
+    let e := b.ensureAsFound (fun _ => true) 9223372036854775808
+    b.Inv ∧ e.st = .ok ∧ e.buf.mem.length = 0 := by
+  decide +kernel
+
+/-- **C07_in_bounds_asfound_counterexample.** As found: 16 readable bytes, request `2^63 − 10`:
+the new block has `(16 + 2^63 − 10) << 1 = 12` bytes and the 16 readable bytes are copied into it. -/
+theorem C07_in_bounds_asfound_counterexample :
+    let b : Buf := { mem := List.replicate 16 7, r := 0, w := 16 }
+    let e := b.ensureAsFound (fun _ => true) 9223372036854775798
+    b.Inv ∧ e.st = .ok ∧ growSize b.w 9223372036854775798 = 12 ∧ (∃ a ∈ e.acc, ¬ a.ok) := by
+  decide +kernel
+
+/-- the same request on the repaired code is refused and changes nothing -/
+theorem C07_reserve_huge_refused :
+    let b : Buf := { mem := List.replicate 16 7, r := 0, w := 16 }
+    let e := b.ensure (fun _ => true) 9223372036854775798
+    e.st = .refused ∧ e.buf = b ∧ e.acc = [] := by
+  decide +kernel
+
+/-- **C07_alloc_failure_asfound_counterexample.** As found, a copy assignment whose allocation
+throws leaves the destination with a null storage under its old indices: it still reports 4
+readable bytes and the next `fetch` copies them from `nullptr`. -/
+theorem C07_alloc_failure_asfound_counterexample :
+    let dst : Buf := { mem := [1, 2, 3, 4], r := 0, w := 4 }
+    let src : Buf := { mem := [9, 9], r := 0, w := 2 }
+    let x := Buf.cloneIntoAsFound (fun _ => false) dst src
+    dst.Inv ∧ src.Inv ∧ x.st = .badAlloc ∧ ¬ x.buf.Inv ∧ x.buf.readableSize = 4 ∧
+    (∃ a ∈ (x.buf.fetch 1).2.2, ¬ a.ok) := by
+  decide +kernel
 
 /-- **C07_copy_independent.** After `dst = src` the two are equal as queues and any later
 operation on one slot leaves every other slot's content unchanged (the store is functional:
 what this rules out in the C++ — shared storage after copy — is what the correspondence
 harness exercises by mutating the source and re-reading the copy). -/
-theorem C07_copy_equal (s : Store) (dst src : Nat) (h : StoreInv s) (hd : dst < s.length)
-    (hne : dst ≠ src) :
-    ((step s (.copyAssign dst src)).1.get dst).readable = (s.get src).readable := by
-  have := (cloneOf_spec (s.get src) (get_inv s src h)).2.1
-  simp only [Store.get, List.getD_eq_getElem?_getD] at this
-  simp [step, hne, Store.get, Store.put, hd, this]
+theorem C07_copy_equal (al : Alloc) (s : Store) (dst src : Nat) (h : StoreInv s) (hd : dst < s.length)
+    (hne : dst ≠ src) (hok : (step al s (.copyAssign dst src)).2.failed = false) :
+    ((step al s (.copyAssign dst src)).1.get dst).readable = (s.get src).readable := by
+  have hr := (C07_step_refines al s (.copyAssign dst src) h rfl).1
+  rw [hok] at hr
+  have := congrArg (fun q => Spec.get q dst) hr
+  simp only [abs_get, specStepF, specStep, hne, ↓reduceIte, Bool.false_eq_true] at this
+  rw [this]
+  have hd' : dst < (abs s).length := by simpa [abs] using hd
+  simp [Spec.get, Spec.put, hd', ← abs_get]
 
 /-- **C07_moved_from_empty.** A moved-from or reset buffer is empty. -/
-theorem C07_moved_from_empty (s : Store) (dst src : Nat) (hs : src < s.length) (hne : dst ≠ src) :
-    ((step s (.moveAssign dst src)).1.get src).readable = [] ∧
-    ((step s (.reset src)).1.get src).readable = [] := by
+theorem C07_moved_from_empty (al : Alloc) (s : Store) (dst src : Nat) (hs : src < s.length) (hne : dst ≠ src) :
+    ((step al s (.moveAssign dst src)).1.get src).readable = [] ∧
+    ((step al s (.reset src)).1.get src).readable = [] := by
   simp [step, hne, Store.get, Store.put, hs, empty_readable]
+
+/-! ### append whose source is the buffer's own storage (aliasing) -/
+
+/-- **C07_self_append_reserved.** If the `k` bytes are reserved before the source pointer is
+taken, `b.append(b.readableBegin()+off, k)` is inside the contract: nothing moves, nothing is
+reallocated, source and destination are disjoint, every access is in bounds and the effect is
+the FIFO append of that slice. -/
+theorem C07_self_append_reserved (al : Alloc) (b : Buf) (off k : Nat) (h : b.Inv)
+    (hk : b.w + k ≤ b.mem.length) (ho : off + k ≤ b.w - b.r) :
+    (b.appendSelfRaw al off k).2 = .none ∧ (b.appendSelfRaw al off k).1.st = .ok ∧
+    (b.appendSelfRaw al off k).1.buf.Inv ∧
+    (b.appendSelfRaw al off k).1.buf.readable = b.readable ++ (b.readable.drop off).take k ∧
+    (b.appendSelfRaw al off k).1.news = 0 ∧ (b.appendSelfRaw al off k).1.dels = 0 ∧
+    (∀ a ∈ (b.appendSelfRaw al off k).1.acc, a.ok) :=
+  appendSelfRaw_reserved al b off k h hk ho
+
+/-- **C07_self_append_growth_dangling.** Without the reservation: whenever the append has to
+reallocate, the block the source points into is deleted before it is read. -/
+theorem C07_self_append_growth_dangling (al : Alloc) (b : Buf) (off k : Nat) (h : b.Inv)
+    (hg : b.needsGrowth k) (hs : b.w + k ≤ maxHalf) (hal : al ((b.w + k) * 2) = true) :
+    (b.appendSelfRaw al off k).2 = .dangling :=
+  appendSelfRaw_growth_dangling al b off k h hg hs hal
+
+/-- **C07_self_append_compaction_counterexample.** Without the reservation, compaction moves the
+bytes under the source pointer: an 8-byte buffer holding `3 4 5 6 7 8` (two bytes consumed),
+`append(readableBegin(), 2)` appends `5 6` instead of `3 4` (no overlap, no out-of-bounds access:
+silent corruption); with `r = 3, w = 8, size = 10, k = 4` source and destination of the `memcpy` overlap. -/
+theorem C07_self_append_compaction_counterexample :
+    (let b : Buf := { mem := [1, 2, 3, 4, 5, 6, 7, 8], r := 2, w := 8 }
+     let x := b.appendSelfRaw (fun _ => true) 0 2
+     b.Inv ∧ x.2 = .none ∧ (∀ a ∈ x.1.acc, a.ok) ∧ b.readable = [3, 4, 5, 6, 7, 8] ∧
+     x.1.buf.readable = [3, 4, 5, 6, 7, 8, 5, 6]) ∧
+    (let b : Buf := { mem := [0, 1, 2, 3, 4, 5, 6, 7, 8, 9], r := 3, w := 8 }
+     b.Inv ∧ (b.appendSelfRaw (fun _ => true) 0 4).2 = .overlap) := by
+  decide +kernel
+
+/-! ### pointer validity epochs -/
+
+/-- **C07_storage_epoch.** Pointers obtained from `readableBegin()/writableBegin()` are offsets
+into the current block.  (1) Reading operations keep the block and its bytes: such pointers stay
+valid and see the same bytes.  (2) A reservation that makes no `new[]` request keeps the block
+(its size is unchanged: old pointers stay inside it), and one that performs no copy at all leaves
+the buffer identical.  (3) A reservation that does make a successful request replaces the block
+(`delete[]` of the old one is counted): every earlier pointer is invalid. -/
+theorem C07_storage_epoch (al : Alloc) (b : Buf) (n : Nat) (h : b.Inv) :
+    (b.hasRead n).mem = b.mem ∧ (b.fetch n).1.mem = b.mem ∧ b.hasReadAll.mem = b.mem ∧
+    (b.hasWritten n).mem = b.mem ∧
+    ((b.ensure al n).news = 0 → (b.ensure al n).buf.mem.length = b.mem.length ∧ (b.ensure al n).dels = 0) ∧
+    ((b.ensure al n).st = .ok → (b.ensure al n).acc = [] → (b.ensure al n).news = 0 → (b.ensure al n).buf = b) ∧
+    ((b.ensure al n).st = .ok → (b.ensure al n).news = 1 → (b.ensure al n).dels = b.owns) := by
+  refine ⟨(hasRead_spec b n h).2.2, ?_, rfl, ?_, ?_, ?_, ?_⟩
+  · unfold Buf.fetch; exact (hasRead_spec b _ h).2.2
+  · unfold Buf.hasWritten; split <;> rfl
+  all_goals
+    rw [ensure_cases al b n h]
+    have c := compact_spec b h
+    have rn : (b.regrow al n).news = 1 := by
+      by_cases hal : al (growSize b.w n) = true <;> simp [Buf.regrow, hal]
+    have rd : (b.regrow al n).st = .ok → (b.regrow al n).dels = b.owns := by
+      by_cases hal : al (growSize b.w n) = true <;> simp [Buf.regrow, hal]
+    (repeat' split) <;> simp_all [Buf.compact]
 
 /-! ### non-vacuity: the hypotheses are met by a concrete, non-trivial run -/
 
 example : StoreInv init := init_inv
 
+/-- allocator of the harness: requests above 16 MiB are refused, `F`-prefixed operations get a
+refusing allocator -/
+def okAl : Alloc := fun sz => sz ≤ 16777216
+def noAl : Alloc := fun _ => false
+
 example :
-    let ops := [Op.append 0 [1,2,3], .rwc 0 300 [4,5], .consume 0 1, .reserve 0 600,
-                .copyAssign 1 0, .fetch 1 2, .moveAssign 2 0, .fetch 2 10, .over 3 5]
-    (∀ op ∈ ops, op.rwcOk = true) ∧
-    (run init ops).2.map (·.fetched) = [[], [], [], [], [], [2,3], [], [2,3,4,5], []] := by
+    let ops : List (Alloc × Op) :=
+      [(okAl, .append 0 [1,2,3]), (okAl, .rwc 0 300 [4,5]), (okAl, .consume 0 1), (noAl, .reserve 0 700),
+       (okAl, .reserve 0 700), (noAl, .copyAssign 1 0), (okAl, .copyAssign 1 0), (okAl, .fetch 1 2),
+       (okAl, .moveAssign 2 0), (okAl, .fetch 2 10), (okAl, .over 3 5),
+       (okAl, .reserve 3 9223372036854775807), (okAl, .appendSelf 2 0 0)]
+    (∀ aop ∈ ops, aop.2.wf = true ∧ aop.2.rwcOk = true) ∧
+    (run init ops).2.map (·.fetched) = [[], [], [], [], [], [], [], [2,3], [], [2,3,4,5], [], [], []] ∧
+    (run init ops).2.map (·.failed) = [false, false, false, true, false, true, false, false, false, false, false, true, false] := by
+  decide +kernel
+
+example : (Buf.mk' 8).Inv ∧ (Buf.mk' 8).needsGrowth 9 ∧ ¬ (((Buf.mk' 8).w + 9223372036854775808) * 2 < W) := by
   decide +kernel
 
 end Tbox.C07
